@@ -8,6 +8,12 @@ mod ops_c01;
 mod ops_c03;
 mod ops_c09;
 mod ops_c18;
+mod ops_c04;
+mod ops_c05;
+mod ops_c06;
+mod ops_c19;
+mod ops_c08;
+mod ops_c11;
 fn dispatch_more(op: &str, args: &[String]) -> Option<String> {
     if let Some(r) = ops_c09::run(op, args) {
         return Some(r);
@@ -19,5 +25,11 @@ fn dispatch_more(op: &str, args: &[String]) -> Option<String> {
     if let Some(r) = ops_c01::run(op, args) { return Some(r); }
     if let Some(r) = ops_c03::run(op, args) { return Some(r); }
     if let Some(r) = ops_c18::run(op, args) { return Some(r); }
+    if let Some(r) = ops_c04::run(op, args) { return Some(r); }
+    if let Some(r) = ops_c05::run(op, args) { return Some(r); }
+    if let Some(r) = ops_c06::run(op, args) { return Some(r); }
+    if let Some(r) = ops_c19::run(op, args) { return Some(r); }
+    if let Some(r) = ops_c08::run(op, args) { return Some(r); }
+    if let Some(r) = ops_c11::run(op, args) { return Some(r); }
     None
 }
